@@ -356,6 +356,19 @@ func checkC09(c *Ctx) {
 	}
 }
 
+func init() {
+	prev := registry["C09"]
+	register("C09", func(c *Ctx) {
+		prev(c)
+		// receiver side: what the queued broadcasts do on the node that gets them
+		ru := c.R.Rule("C09-R0", "anchors", "", 0)
+		if d := c.dstate(ru); d != nil {
+			c.ruleDelegateWiring("C09-R7", d)
+			c.ruleMergeTable("C09-R8", d)
+		}
+	})
+}
+
 func isClockCall(cl *core.Call) bool {
 	if cl.Static != nil || cl.Invoke || cl.Builtin() != "" {
 		return false
